@@ -47,13 +47,6 @@ impl JsonValue {
             _ => None,
         }
     }
-
-    pub(super) fn as_integer(&self) -> Option<i32> {
-        match self {
-            JsonValue::Number(n) => n.as_integer(),
-            _ => None,
-        }
-    }
 }
 
 pub(super) struct JsonTokenizer<'a> {
